@@ -154,7 +154,17 @@ def _run_case(case, ctx):
         form = gen.choice(rs, ["scalar", "list", "list-holes", "dict"])
         p = param_for(rs, kind, X.shape, R)
         if form == "scalar":
-            kw = {kind: p}
+            # one value for all modes, as a caller's arithmetic produces it: a NumPy boolean from a reduction, a NumPy number
+            spell = gen.choice(rs, ["python", "python", "numpy-scalar", "zero-d-array"])
+            p_arg = p
+            if spell == "numpy-scalar":
+                p_arg = np.bool_(p) if isinstance(p, bool) else (np.int64(p) if isinstance(p, int) else np.float64(p))
+            elif spell == "zero-d-array":
+                p_arg = np.asarray(p)
+            if spell != "python":
+                ctx.count("form/scalar-" + spell)
+                form = "scalar-" + spell
+            kw = {kind: p_arg}
             per_mode = {m: (kind, p) for m in range(order)}
         elif form == "list":
             ps = [param_for(rs, kind, X.shape, R) for _ in range(order)]
@@ -201,7 +211,16 @@ def _run_case(case, ctx):
     ctx.sample({"case": desc}, 6)
     try:
         if g == "class_api":
-            est = ConstrainedCP(R, n_iter_max=n_out, n_iter_max_inner=n_in, init=init, random_state=seed, fixed_modes=list(fixed) or None, **kw)
+            if rs.rand() < 0.4:
+                # the constraints are put on the estimator after it was built (one estimator re-configured between fits): what it
+                # carries when it is fitted is the request
+                est = ConstrainedCP(R, n_iter_max=n_out, n_iter_max_inner=n_in, init=init, random_state=seed, fixed_modes=list(fixed) or None)
+                for k_, v_ in kw.items():
+                    setattr(est, k_, v_)
+                ctx.count("class_constraints_assigned_after_construction")
+                form = form + "+assigned-later"
+            else:
+                est = ConstrainedCP(R, n_iter_max=n_out, n_iter_max_inner=n_in, init=init, random_state=seed, fixed_modes=list(fixed) or None, **kw)
             out = est.fit_transform(X)
         else:
             out = constrained_parafac(X, R, n_iter_max=n_out, n_iter_max_inner=n_in, init=init, random_state=seed, fixed_modes=list(fixed) or None, **kw)
